@@ -178,6 +178,20 @@ def judge (prop : String) (j : Json) : R Verdict := do
          | some (coin, assets) => !o.optional || coin > 0 || assets.any (fun a => a.2.2 > 0)
          | none => true)
       | _ => true
+    -- the outputs kept when out-of-range entries wrap / are dropped one by one (known findings)
+    let keptUnderWrap := tx.outputs.filter fun o =>
+      match o.amount with
+      | .node .assets cs =>
+        !o.optional || ((lovelaceEntries cs).map asU64).sum > 0 ||
+          (assetTotalsDroppingNegative cs).any (fun a => a.2.2 > 0)
+      | _ => true
+    let nPubAll := (tx.adhoc.filter fun d => adhocName d == "cardano_publish").length
+    -- template outputs aligned with the outputs of the transaction (empty when the counts differ:
+    -- the count itself is judged under C02)
+    let alignedOutputs :=
+      if expectedOutputs.length + nPubAll == atx.outputs.length then expectedOutputs
+      else if keptUnderWrap.length + nPubAll == atx.outputs.length then keptUnderWrap
+      else []
     if prop == "C02" then
       -- fee, validity
       if let some f := numOf tx.fees then
@@ -195,12 +209,6 @@ def judge (prop : String) (j : Json) : R Verdict := do
       let nPub := (tx.adhoc.filter fun d => adhocName d == "cardano_publish").length
       if expectedOutputs.length + nPub != atx.outputs.length then
         -- an optional output whose lovelace wrapped around is kept although it denotes nothing
-        let keptUnderWrap := tx.outputs.filter fun o =>
-          match o.amount with
-          | .node .assets cs =>
-            !o.optional || ((lovelaceEntries cs).map asU64).sum > 0 ||
-              (assetTotalsDroppingNegative cs).any (fun a => a.2.2 > 0)
-          | _ => true
         let wrappedOptional := tx.outputs.any fun o =>
           o.optional && (match o.amount with | .node .assets cs => (entriesNegative cs).1 | _ => false)
         if wrappedOptional && keptUnderWrap.length + nPub == atx.outputs.length then
@@ -257,8 +265,8 @@ def judge (prop : String) (j : Json) : R Verdict := do
             if !(atx.metadata.any fun kv => kv.1 = k && kv.2 == .int v) then spec := spec ++ ["exact:metadata"]
         | _, _ => pure ()
     if prop == "C09" || prop == "C02" then
-      if expectedOutputs.length ≤ atx.outputs.length then
-        for (o, a) in expectedOutputs.zip atx.outputs do
+      if alignedOutputs.length ≤ atx.outputs.length then
+        for (o, a) in alignedOutputs.zip atx.outputs do
           if !o.datum.isNone then
             match denoteData o.datum, a.datum with
             | some d, some d' => if !(d == d') then spec := spec ++ ["datum-value"]
